@@ -235,6 +235,7 @@ Proof.
   - destruct (canon_ok _ _ _ _ Hc Hpl) as [-> Hdp]. rewrite Hna in Hcf.
     destruct (lookup s p) as [n|] eqn:Hlp.
     + destruct (is_dir_node n) eqn:Hdn; [discriminate|]. fold tmp in Hcf.
+      destruct (name_too_long tmp); [discriminate|].
       destruct (create_ops um s x tmp) as [c [e|]] eqn:Hco; [discriminate|]. injection Hcf as <-.
       apply Hstaged; auto. discriminate.
     + destruct (create_ops um s x p) as [c [e|]] eqn:Hco; [discriminate|]. injection Hcf as <-.
